@@ -220,7 +220,9 @@ impl DynGroup {
             let matches: Vec<_> = entries
                 .iter()
                 .filter_map(|e| {
-                    if e.entry_match_no_index(&dg_filter_valid) {
+                    // The dyngroup filter carries no recycled/tombstone exclusion, and in
+                    // replication a created entry can arrive already recycled.
+                    if e.mask_recycled_ts().is_some() && e.entry_match_no_index(&dg_filter_valid) {
                         Some(e.get_uuid())
                     } else {
                         None
@@ -359,8 +361,13 @@ impl DynGroup {
                 .iter()
                 .zip(post_entries.iter())
                 .filter_map(|(pre, post)| {
-                    let pre_t = pre.entry_match_no_index(&dg_filter_valid);
-                    let post_t = post.entry_match_no_index(&dg_filter_valid);
+                    // The dyngroup filter carries no recycled/tombstone exclusion: a masked
+                    // entry is never a member. This matters for revive (pre is recycled) and
+                    // for replication, where candidates can be recycled or tombstoned.
+                    let pre_t = pre.mask_recycled_ts().is_some()
+                        && pre.entry_match_no_index(&dg_filter_valid);
+                    let post_t = post.mask_recycled_ts().is_some()
+                        && post.entry_match_no_index(&dg_filter_valid);
 
                     trace!(?post_t, ?force_cand_updates, ?pre_t);
 
